@@ -1,6 +1,7 @@
 """General utilities usable by any other GTIRB submoudle."""
 
 import itertools
+import operator
 import typing
 
 import intervaltree
@@ -112,8 +113,8 @@ class ListWrapper(typing.MutableSequence[T]):
                     "attempt to assign sequence of size %d to extended slice "
                     "of size %d" % (len(values), len(indices))
                 )
-        elif -len(self._data) <= i.__index__() < len(self._data):
-            indices = range(i.__index__(), i.__index__() + 1)
+        elif -len(self._data) <= operator.index(i) < len(self._data):
+            indices = range(operator.index(i), operator.index(i) + 1)
             values = [typing.cast(T, v)]
         else:
             raise IndexError("list assignment index out of range")
@@ -152,6 +153,9 @@ class ListWrapper(typing.MutableSequence[T]):
         return len(self._data)
 
     def insert(self, i: int, v: T) -> None:
+        # Reject a bad index before the value is adopted (list.insert raises
+        # TypeError and changes nothing).
+        i = operator.index(i)
         self._add(v)
         return self._data.insert(i, v)
 
